@@ -2,14 +2,20 @@
 (* C19 conformance.  One record per real in-process run of a TLC-generated   *)
 (* schedule (Threads.tla hist):                                              *)
 (*   tests = test ids in execution order,                                    *)
-(*   ev = thread events in order: {e:"S", t, th, ident, ign} a thread was    *)
-(*        started inside test t through api (ign: its name matches an ignore pattern in *)
-(*        match mode - environment fact), {e:"E", t, th, ident} it was seen  *)
-(*        to have ended inside test t,                                       *)
+(*   ev = thread events in order: {e:"S", t, th, ident, ign, api} a thread   *)
+(*        was started inside test t through api (t = "": before the first    *)
+(*        test, while the test module was imported; ign: the name it is seen *)
+(*        under matches an ignore pattern in match mode - environment fact), *)
+(*        {e:"N", t, th, ident, ign} it is seen under another name from now  *)
+(*        on (a low-level thread became known to threading, or a rename),    *)
+(*        {e:"E", t, th, ident} it was seen to have ended inside test t,     *)
 (*   rep = per test the idents named in its "left new threads behind" block. *)
 (* P-spec: reported(k) = started during k, still running at its end, not     *)
-(* ignored.  I-spec (ident-based snapshot difference) is evaluated too: a    *)
-(* P-violation the I-spec predicts is the ident-reuse defect.                *)
+(* ignored under the name it carries at the end of k.  Don't-care zone (see  *)
+(* Threads.tla): a thread started in k whose name at the end of k is of the  *)
+(* other ignore class than the name it was started under may or may not be   *)
+(* reported for k.  I-spec (ident-based snapshot difference) is evaluated    *)
+(* too: a P-violation the I-spec predicts is the ident-reuse defect.         *)
 EXTENDS Naturals, Sequences, FiniteSets, TLC, Json, IOUtils, SequencesExt
 
 Recs == JsonDeserialize(IOEnv.TRACE_FILE)
@@ -18,43 +24,59 @@ Init == k \in 1..Len(Recs)
 Next == UNCHANGED k
 Spec == Init /\ [][Next]_k
 
-Idx(r, t) == CHOOSE j \in 1..Len(r.tests) : r.tests[j] = t
+Idx(r, t) == IF t = "" THEN 0 ELSE CHOOSE j \in 1..Len(r.tests) : r.tests[j] = t
 Starts(r) == {j \in 1..Len(r.ev) : r.ev[j].e = "S"}
 EndedBy(r, th, n) ==      \* th was seen ended in a test with index <= n
   \E j \in 1..Len(r.ev) : r.ev[j].e = "E" /\ r.ev[j].th = th /\ Idx(r, r.ev[j].t) <= n
 EndedBefore(r, th, n) ==
   \E j \in 1..Len(r.ev) : r.ev[j].e = "E" /\ r.ev[j].th = th /\ Idx(r, r.ev[j].t) < n
+(* does the name th carries at the end of test n match an ignore pattern:    *)
+(* the fact logged with its last start / new-name event up to then           *)
+IgnAtEnd(r, th, n) ==
+  LET J == {j \in 1..Len(r.ev) : r.ev[j].e \in {"S", "N"} /\ r.ev[j].th = th
+                                  /\ Idx(r, r.ev[j].t) <= n}
+  IN r.ev[CHOOSE j \in J : \A i \in J : i <= j].ign
 
 (* threads running when test n starts / stops *)
 AliveAtStart(r, n) == {j \in Starts(r) : Idx(r, r.ev[j].t) < n /\ ~EndedBefore(r, r.ev[j].th, n)}
 AliveAtStop(r, n) == {j \in Starts(r) : Idx(r, r.ev[j].t) <= n /\ ~EndedBy(r, r.ev[j].th, n)}
 
-Expected(r, n) == {j \in Starts(r) : Idx(r, r.ev[j].t) = n /\ ~EndedBy(r, r.ev[j].th, n) /\ ~r.ev[j].ign}
+Leaked(r, n) == {j \in Starts(r) : Idx(r, r.ev[j].t) = n /\ ~EndedBy(r, r.ev[j].th, n)}
+Expected(r, n) == {j \in Leaked(r, n) : ~r.ev[j].ign /\ ~IgnAtEnd(r, r.ev[j].th, n)}
+DontCare(r, n) == {j \in Leaked(r, n) : r.ev[j].ign # IgnAtEnd(r, r.ev[j].th, n)}
 (* snapshot entries still taken for alive at the stop: a threading.Thread    *)
-(* knows that it has ended, a thread unknown to threading does not           *)
+(* knows that it has ended, a thread started outside threading does not      *)
+(* (adopted by threading or not)                                             *)
 Kept(r, n) == {j \in AliveAtStart(r, n) : ~EndedBy(r, r.ev[j].th, n) \/ r.ev[j].api # "threading"}
 ISpec(r, n) == LET sn == {r.ev[j].ident : j \in Kept(r, n)}
-               IN {j \in AliveAtStop(r, n) : r.ev[j].ident \notin sn /\ ~r.ev[j].ign}
+               IN {j \in AliveAtStop(r, n) : r.ev[j].ident \notin sn /\ ~IgnAtEnd(r, r.ev[j].th, n)}
 OldISpec(r, n) == LET sn == {r.ev[j].ident : j \in AliveAtStart(r, n)}
-                  IN {j \in AliveAtStop(r, n) : r.ev[j].ident \notin sn /\ ~r.ev[j].ign}
+                  IN {j \in AliveAtStop(r, n) : r.ev[j].ident \notin sn /\ ~IgnAtEnd(r, r.ev[j].th, n)}
 
 Id(r, S) == {r.ev[j].ident : j \in S}
 Reported(r, n) == ToSet(r.rep[r.tests[n]])
 
 TestVerdict(r, n) ==
   LET exp == Id(r, Expected(r, n))
+      may == exp \cup Id(r, DontCare(r, n))
       rp == Reported(r, n)
-  IN IF exp = rp THEN ""
+      extra == rp \ may
+  IN IF exp \subseteq rp /\ rp \subseteq may THEN ""
      ELSE IF rp = Id(r, ISpec(r, n))
           THEN "C19:missed|ident-reused-from-an-ended-thread-unknown-to-threading"
      ELSE IF rp = Id(r, OldISpec(r, n))
           THEN "C19:missed|ident-reused-from-an-ended-threading-thread"
      ELSE IF exp \ rp # {} THEN "C19:missed"
-     ELSE IF \E j \in Starts(r) : r.ev[j].ident \in rp \ exp /\ r.ev[j].ign /\ Idx(r, r.ev[j].t) = n
+     ELSE IF \E j \in Starts(r) : r.ev[j].ident \in extra /\ Idx(r, r.ev[j].t) = n
+                                   /\ IgnAtEnd(r, r.ev[j].th, n)
           THEN "C19:spurious|ignored-thread"
-     ELSE IF \E j \in Starts(r) : r.ev[j].ident \in rp \ exp /\ Idx(r, r.ev[j].t) < n
-          THEN "C19:wrong-test"
-     ELSE IF \E j \in Starts(r) : r.ev[j].ident \in rp \ exp /\ EndedBy(r, r.ev[j].th, n)
+     ELSE IF \E j \in Starts(r) : r.ev[j].ident \in extra /\ Idx(r, r.ev[j].t) < n
+                                   /\ ~EndedBy(r, r.ev[j].th, n)
+          THEN IF \E j \in Starts(r) : r.ev[j].ident \in extra /\ Idx(r, r.ev[j].t) = 0
+                                        /\ ~EndedBy(r, r.ev[j].th, n)
+               THEN "C19:wrong-test|existed-before-the-first-test"
+               ELSE "C19:wrong-test"
+     ELSE IF \E j \in Starts(r) : r.ev[j].ident \in extra /\ EndedBy(r, r.ev[j].th, n)
           THEN "C19:spurious|finished-thread"
      ELSE "C19:spurious"
 
